@@ -164,6 +164,10 @@ func c14GenSchema(t *rapid.T, label string) map[string]interface{} {
 		}
 		props["cfg"] = cfg
 	}
+	// what the chart's schema says about the global values it receives
+	if rapid.IntRange(0, 3).Draw(t, label+"pGlobal") == 0 {
+		props["global"] = map[string]interface{}{"type": "object", "properties": map[string]interface{}{"region": map[string]interface{}{"type": "string", "enum": []interface{}{"eu", "us"}}}}
+	}
 	s := map[string]interface{}{"$schema": "http://json-schema.org/draft-07/schema#", "type": "object", "properties": props}
 	var req []interface{}
 	for _, k := range []string{"replicas", "name"} {
@@ -277,6 +281,9 @@ func (c *c14Chart) build(version string) *chart.Chart {
 func c14GenCase(t *rapid.T) c14Case {
 	mk := func(name string, label string) *c14Chart {
 		c := &c14Chart{Name: name, Defaults: c14GenValues(t, label+"def", 6)}
+		if rapid.IntRange(0, 4).Draw(t, label+"defGlobal") == 0 {
+			c.Defaults["global"] = map[string]interface{}{"region": rapid.SampledFrom([]interface{}{"eu", "us", "mars", float64(7)}).Draw(t, label+"defRegion")}
+		}
 		if rapid.IntRange(0, 3).Draw(t, label+"hasSchema") > 0 {
 			c.Schema = c14GenSchema(t, label)
 		}
@@ -343,6 +350,7 @@ func c14GenCase(t *rapid.T) c14Case {
 			"mid.replicas=0", "mid.replicas=3", "mid.name=beta", "mid.leaf.replicas=0", "mid.leaf.replicas=3", "mid.leaf.name=zz", "side.replicas=-1", "side.debug=true",
 			"mid.enabled=false", "mid.leaf.enabled=false", "mid.enabled=true", "ports={80,443}", "ports={0}", "mid.cfg.mode=1",
 			// nulls: over a default (deletes it), and where nothing is to delete (stays a null in the final values)
+			"global.region=eu", "global.region=mars", "global.region=7", "cfg.level=5", "cfg.level=2", "mid.cfg.level=4", "side.cfg.level=1",
 			"name=null", "replicas=null", "debug=null", "cfg=null", "cfg.mode=null", "extra=null", "mid.name=null", "mid.replicas=null", "mid.leaf.name=null", "side.cfg.level=null",
 		}).Draw(t, "set"))
 	}
